@@ -98,6 +98,26 @@ def serveZ (g : PDeframer) (lenOf : List Byte → Nat) : Nat → AB → ARd → 
       ((h, p) :: rest, term)
     | (_, _, res) => ([], res)
 
+/-- the write side of the transport as the log of byte strings written to it.  `ReadWriteChain::write` /
+    `ReadWriteTake::write` forward to the wrapped stream unchanged and touch neither `first`, the switch-over flag
+    nor the allowance (C13); `write_all` of a response is therefore one entry of the log and leaves the chain as it is -/
+def PChain.writeAll (c : PChain) (w : List (List Byte)) (x : List Byte) : PChain × List (List Byte) := (c, w ++ [x])
+
+/-- the request loop of tests/server.rs INCLUDING the response: after the payload has been drained, `resp header payload`
+    is written through the adapter; returns what `serveZ` returns and the transport's write log -/
+def serveW (g : PDeframer) (lenOf : List Byte → Nat) (resp : List Byte → List Byte → List Byte) :
+    Nat → AB → ARd → List Nat → List (List Byte) → (List (List Byte × List Byte) × Res) × List (List Byte)
+  | 0, _, _, _, w => (([], .fuelOut), w)
+  | fuel + 1, b, r, ds, w =>
+    match pollLoop (liftDf g) (r.rem.length + 1) b r with
+    | (b', r', .frame h) =>
+      let n := lenOf h
+      let (p, t') := drainZ (zeros ds + min n (b'.q.length + r'.rem.length) + 1) { remaining := n, c := { done := false, b := b', r := r' } } ds
+      let (c'', w') := t'.c.writeAll w (resp h p)
+      let (out, w'') := serveW g lenOf resp fuel c''.b c''.r ds w'
+      (((h, p) :: out.1, out.2), w'')
+    | (_, _, res) => (([], res), w)
+
 /-- the specification: consecutive segments of the connection's byte stream -/
 def parseConn (size : Nat) (g : PDeframer) (lenOf : List Byte → Nat) : Nat → List Byte → List (List Byte × List Byte) × Res
   | 0, _ => ([], .fuelOut)
